@@ -185,3 +185,89 @@ Fixpoint model_obs (u : uni) (seg : list Z -> list (list Z)) (md : tmodes) (h : 
   | SEv e :: t =>
       OEv e false (term_update u md e) (Some (host_read u seg (term_update u md e))) :: model_obs u seg md t
   end.
+
+(* ---------- child output cut at ANY point: the parser state is carried across the pieces ---------- *)
+(* term.go Start: ONE ansi.Parser reads the PTY for the whole life of the emulator, so a control function
+   whose bytes arrive in two (or ten) reads is still one sequence: what survives between two pieces of child
+   output is the emulator's mode record AND the state of that parser (model/Parser.v pst: state function,
+   collected intermediates and parameters, pending string; bool = the read loop is still running).
+   A piece is a run of the child's decoded stream (for 7-bit output — every mode-setting control function —
+   a rune is a byte, so the cut may fall on any byte; lemma decode_all_ascii7 in the proofs). *)
+Inductive cstep :=
+  | CRaw (rs : list Z)         (* the next read of the PTY returned these runes *)
+  | CEvt (e : tevent).         (* the host called Model.Update(e) *)
+
+Definition carried := (pst * bool)%type.
+Definition carried0 : carried := (pinit, true).
+
+(* one read through the carried parser: the new carried state and the sequences delivered to Model.update *)
+Definition cfeed (c : carried) (rs : list Z) : carried * list item :=
+  let '(p, alive) := c in
+  if alive then let '(p', o, go) := feed p rs in ((p', go), o) else (c, []).
+
+(* a cut history as a history: each piece becomes the sequences it completes *)
+Fixpoint cut_hist (c : carried) (h : list cstep) : list hstep :=
+  match h with
+  | [] => []
+  | CRaw rs :: t => let '(c', o) := cfeed c rs in SOut o :: cut_hist c' t
+  | CEvt e :: t => SEv e :: cut_hist c t
+  end.
+
+Definition cut_run (u : uni) (md : tmodes) (c : carried) (h : list cstep) : option (list (list Z) * tmodes) :=
+  hist_run u md (cut_hist c h).
+
+(* the child's stream of a cut history (the pieces glued together), its carried state, its events *)
+Fixpoint cut_stream (h : list cstep) : list Z :=
+  match h with
+  | [] => []
+  | CRaw rs :: t => rs ++ cut_stream t
+  | CEvt _ :: t => cut_stream t
+  end.
+Fixpoint cut_carry (c : carried) (h : list cstep) : carried :=
+  match h with
+  | [] => c
+  | CRaw rs :: t => cut_carry (fst (cfeed c rs)) t
+  | CEvt _ :: t => cut_carry c t
+  end.
+Fixpoint cut_events (h : list cstep) : nat :=
+  match h with
+  | [] => O
+  | CRaw _ :: t => cut_events t
+  | CEvt _ :: t => S (cut_events t)
+  end.
+
+(* the sequences the whole stream delivers when it is read in ONE piece *)
+Definition stream_items (c : carried) (rs : list Z) : list item := snd (cfeed c rs).
+
+(* cut stream: (the steps observed on ONE emulator fed by ONE parser, the DECRQM replies at the end).
+   OOut reqs out = the PTY read returned the bytes [out]; [reqs] = the requests whose LAST byte is in this
+   piece.  Mismatches: the model carries the parser state from piece to piece, reads the same completed requests
+   out of each piece, predicts every byte string written, the events read back and the final DECRQM replies. *)
+Fixpoint cut_mismatch (md : tmodes) (c : carried) (obs : list hobs) (report : list Z) : bool :=
+  match obs with
+  | [] => negb (zlist_eqb (mode_report md) report)
+  | OOut reqs out :: t =>
+      let '(c', its) := cfeed c (decode_all out) in
+      negb (list_eqb creq_eqb (reqs_of its) reqs)
+      || match child_items its md with
+         | None => true
+         | Some md' => cut_mismatch md' c' t report
+         end
+  | OEv e pause bytes evs :: t =>
+      match e with TKey k => negb (key_covered [] k bytes) | _ => false end
+      || negb (zlist_eqb (term_update ascii_uni md e) bytes)
+      || match evs with
+         | Some evs => match host_read_marked ascii_uni (seg_of []) pause bytes with
+                       | Some m => negb (hevents_eqb m evs)
+                       | None => true
+                       end
+         | None => false
+         end
+      || cut_mismatch md c t report
+  end.
+
+Definition c13_cut_mismatches (cases : list hist_case) : list Z :=
+  bad_indices (fun c => let '(obs, report) := c in cut_mismatch modes0 carried0 obs report) cases.
+
+(* violations: the history predicate, unchanged — a request counts from the piece that completes it *)
+Definition c13_cut_violations (cases : list hist_case) : list Z := c13_hist_violations cases.
